@@ -2,11 +2,13 @@ from common import T_COMMON
 from cfg_C04 import T_PLY
 
 CFG = dict(
+    modules=["PolyVerif.Props.C08", "PolyVerif.Props.C08Compose"],
     theorems=["ply_offset_is_prefix_sum", "ply_column_is_header_index", "ply_spec_field_any_layout", "ply_spec_field_value",
               "ply_spec_vertex_block", "ply_group_reader_located", "ply_group_columns_any_permutation", "ply_unclaimed_property_gets_reader", "ply_unclaimed_reader_located",
               "ply_header_line_lf_crlf", "ply_reader_quad_fan", "ply_reader_triangle", "ply_reader_face_other",
               "ply_mixed_type_group_not_claimed", "ply_ascii_int_through_float32", "ply_ascii_int_through_float32_concrete",
-              "ply_ascii_uchar_scalar_not_normalised", "ply_ascii_uchar_scalar_not_normalised_concrete"],
+              "ply_ascii_uchar_scalar_not_normalised", "ply_ascii_uchar_scalar_not_normalised_concrete",
+              "ply_spec_readback_vertex", "ply_reads_spec_pointcloud"],
     # proved, but `rfl` on the specification-side definition: not counted (ignored by the check)
     helper_theorems=["fan_quad"],
     streams=[dict(name="c08", n=dict(quick=400, thorough=5000))],
